@@ -80,3 +80,22 @@ pub struct ShapeEntry {
     /// run(derived, seed, calls) for three instantiations (the environment kind ignores the index)
     pub run: [fn(bool, u64, usize) -> Vec<Rec>; 3],
 }
+
+/// Hand-written members that own further sets of the SAME derived type (recursion through a Vec): a derived set must be
+/// re-entrant - updating one value of a type while another value of that type is in the middle of its own update.
+pub struct Kids<T>(pub Vec<T>);
+impl<T: bourse_de::agents::AgentSet> Agent for Kids<T> {
+    fn update<R: RngCore>(&mut self, env: &mut Env, rng: &mut R) {
+        for k in self.0.iter_mut() {
+            k.update(env, rng);
+        }
+    }
+}
+pub struct MKids<T>(pub Vec<T>);
+impl<T: bourse_de::agents::MarketAgentSet> MarketAgent for MKids<T> {
+    fn update<R: RngCore, const M: usize, const N: usize>(&mut self, env: &mut MarketEnv<M, N>, rng: &mut R) {
+        for k in self.0.iter_mut() {
+            k.update(env, rng);
+        }
+    }
+}
